@@ -1143,6 +1143,32 @@ FORCED = [
 ]
 
 
+def inline_custom_cases(ck, rng, stats, n, only=None):
+    """`harness/lib_c18inline.py`: models written at ai.onnx 11-17 holding user-defined operators
+    next to nodes that need conversion, inlined into programs at opset 18-21 (public API only)."""
+    from harness import lib_c18inline as L
+
+    specs = [only] if only is not None else [L.gen_spec(rng, i) for i in range(n)]
+    dist = {}
+    for spec in specs:
+        try:
+            verdicts, info = L.run_spec(spec)
+        except Exception as e:  # noqa: BLE001
+            ck.broken("correspondence", "inline-custom case not observable (extension interface / onnx helpers)",
+                      f"{type(e).__name__}: {e}; spec={spec}")
+            continue
+        ck.count(("inline-custom", repr(spec)))
+        dist[spec["variant"]] = dist.get(spec["variant"], 0) + 1
+        for c in spec["chain"]:
+            if c[0] == "d":
+                dist["step:" + c[1]] = dist.get("step:" + c[1], 0) + 1
+        for key, what in verdicts:
+            ck.failure(key, what, {"kind": "inline-custom", "spec": spec})
+        if only is not None:
+            print("foreign:", info.get("foreign_ops"), "built:", info.get("built_ops"), "imports:", info.get("imports"))
+    stats["inline_custom"] = dist
+
+
 def run(ck: core.Check):
     ck.lean(["SpoxModel.Props.C18"], audit="SpoxModel.Audit.C18")
     if ck.thorough:
@@ -1221,6 +1247,8 @@ def run(ck: core.Check):
         relabel_cases(ck, env, rng, stats, ck.pick(60, 600))
     except Exception as e:  # noqa: BLE001
         ck.broken("correspondence", "relabelling cases not observable", f"{type(e).__name__}: {e}")
+    # a custom operator inside an inlined model, next to default-domain nodes that need opset adaptation
+    inline_custom_cases(ck, rng, stats, ck.pick(120, 1200))
     # execution
     for position in ("top", "if", "twice"):
         for k in (2.5, -0.75):
@@ -1296,6 +1324,8 @@ def replay(ck: core.Check, doc) -> bool:
         exec_case(ck, env, c["position"], c["k"], stats)
     elif c["kind"] == "reinfer":
         reinfer_case(ck, env, fix(c["sig"]), rng)
+    elif c["kind"] == "inline-custom":
+        inline_custom_cases(ck, rng, stats, 1, only=c["spec"])
     elif c["kind"] == "relabel":
         class _R:  # replays the recorded choice of relabelled nodes
             def randrange(self, n):
